@@ -278,4 +278,10 @@ def run(ctx: Ctx):
     from . import c13_more
 
     c13_more.run(ctx)
+    if not ctx.violations:
+        from . import c07
+
+        st = Stream(ctx, "diagram rules naming a component that the architecture does not have, next to violated generated rules")
+        c07.absent_component_stream(ctx, st, ctx.size(1500, 20000))
+        st.finish()
     return RULE
